@@ -1141,8 +1141,172 @@ pub fn gen_secret(t: &mut Tape) -> Vec<u8> {
 
 /// a secret related to `s` in a way a weak cache key would confuse with it: a prefix, an extension, two octets swapped
 /// (including 8 apart), a neighbouring pair changed by (+1, -31), or simply another secret of the same length
+// ---------------------------------------------------------------- inputs that weak digests cannot tell apart
+// A memo or cache keyed by a weak digest of its input (and never comparing the input itself) answers for the wrong input as soon
+// as two inputs collide. The edits below keep the common hand-rolled digests unchanged; none depends on where in the hashed
+// region the edit lies or on what precedes it, except the FNV search, which needs the octets hashed before the free ones.
+
+/// 32-bit FNV-1a
+pub fn fnv1a32(h0: u32, b: &[u8]) -> u32 {
+    b.iter().fold(h0, |h, &x| (h ^ x as u32).wrapping_mul(0x0100_0193))
+}
+pub const FNV32_BASIS: u32 = 0x811c_9dc5;
+
+/// A string different from `tail`, of the same length (>= 8), with the same FNV-1a-32 state after `prefix`. Meet in the middle:
+/// the states reached by 2^14 random heads (all but the last four octets) are tabulated, then random four-octet endings are run
+/// backwards from the wanted state (FNV's multiplier is odd, hence invertible modulo 2^32) until one lands in the table.
+pub fn fnv1a32_colliding_with(prefix: &[u8], tail: &[u8], seed: u64) -> Option<Vec<u8>> {
+    let len = tail.len();
+    if len < 8 {
+        return None;
+    }
+    const P_INV: u32 = 0x359c_449b; // 0x01000193 * 0x359c449b = 1 (mod 2^32)
+    let h0 = fnv1a32(FNV32_BASIS, prefix);
+    let want = fnv1a32(h0, tail);
+    let mut x = seed | 1;
+    let mut next = move || {
+        x ^= x << 13;
+        x ^= x >> 7;
+        x ^= x << 17;
+        x
+    };
+    let hl = len - 4;
+    let mut table: std::collections::HashMap<u32, u64> = std::collections::HashMap::with_capacity(1 << 14);
+    let head_of = |r: u64| -> Vec<u8> { (0..hl).map(|k| (r.rotate_left(8 * (k as u32 % 8)) as u8) ^ (k / 8) as u8).collect() };
+    for _ in 0..(1u32 << 14) {
+        let r = next();
+        table.insert(fnv1a32(h0, &head_of(r)), r);
+    }
+    for _ in 0..(1u32 << 21) {
+        let e = (next() >> 16) as u32;
+        let end = e.to_be_bytes();
+        let mut st = want;
+        for &b in end.iter().rev() {
+            st = st.wrapping_mul(P_INV) ^ b as u32;
+        }
+        if let Some(&r) = table.get(&st) {
+            let mut c = head_of(r);
+            c.extend_from_slice(&end);
+            if c != tail && fnv1a32(h0, &c) == want {
+                return Some(c);
+            }
+        }
+    }
+    None
+}
+
+/// CRC-32 generator polynomial x^32 + x^26 + ... + 1, the 33 coefficients from x^32 down
+const CRC32_POLY_BITS: u64 = 0x1_04C1_1DB7;
+
+/// An edit of `b` that keeps a family of digests unchanged, whatever precedes and follows the edited octets:
+/// 0 swap of two octets (sum, xor); 1 (+1,-31) on neighbours (Java-style 31-polynomial); 2 (+1,-33) (djb2);
+/// 3 (+1,-2,+1) on three neighbours (Adler-32 / Fletcher, barring a wrap at 0 / 255); 4 the CRC-32 polynomial XORed in at a bit
+/// offset, most significant bit first (CRC-32/MPEG-2, BZIP2); 5 the same, least significant bit first (zlib / IEEE CRC-32).
+/// Returns false if `b` is too short for the chosen edit.
+pub fn digest_preserving_edit(t: &mut Tape, b: &mut [u8]) -> bool {
+    let n = b.len();
+    match t.below(6) {
+        0 if n >= 2 => {
+            let (i, j) = (t.below(n), t.below(n));
+            b.swap(i, j);
+            b[i] != b[j]
+        }
+        k @ (1 | 2) if n >= 2 => {
+            let i = t.below(n - 1);
+            let d = if k == 1 { 31 } else { 33 };
+            if b[i] == 255 || b[i + 1] < d {
+                return false;
+            }
+            b[i] += 1;
+            b[i + 1] -= d;
+            true
+        }
+        3 if n >= 3 => {
+            let i = t.below(n - 2);
+            if b[i] == 255 || b[i + 1] < 2 || b[i + 2] == 255 {
+                return false;
+            }
+            b[i] += 1;
+            b[i + 1] -= 2;
+            b[i + 2] += 1;
+            true
+        }
+        k @ (4 | 5) if n >= 5 => {
+            let off = t.below(8 * n - 32);
+            for j in 0..33 {
+                if (CRC32_POLY_BITS >> (32 - j)) & 1 == 1 {
+                    let bit = off + j;
+                    let mask = if k == 4 { 0x80u8 >> (bit % 8) } else { 1u8 << (bit % 8) };
+                    b[bit / 8] ^= mask;
+                }
+            }
+            true
+        }
+        _ => false,
+    }
+}
+
+/// Two accepted control messages of the same length that differ only in the last 8 octets (the tail of a final Challenge AVP)
+/// and collide under FNV-1a-32 when the digest is taken over one of four natural regions: the whole message, the AVP region
+/// (from octet 12), the last AVP, or its value. None if the search fails.
+pub fn fnv_twin_messages(t: &mut Tape) -> Option<(Vec<u8>, Vec<u8>, &'static str)> {
+    let k = t.below(3);
+    let m = gen_control_k(t, k);
+    let (tunnel, session, ns, nr, mut avps) = match m {
+        SMsg::Control { tunnel, session, ns, nr, avps, .. } => (tunnel, session, ns, nr, avps),
+        _ => return None,
+    };
+    if avps.is_empty() {
+        avps.push(msg_type_avp(t));
+    }
+    let vlen = 12 + t.below(20);
+    let value = t.raw(vlen);
+    avps.push(SAvp { attr: 11, hidden: false, body: Body::Blob(value) });
+    let b1 = encode_message(&SMsg::Control { length: 0, tunnel, session, ns, nr, avps });
+    let n = b1.len();
+    let (start, what) = match t.below(4) {
+        0 => (0, "the whole message"),
+        1 => (12, "the AVP region"),
+        2 => (n - vlen - 6, "the last AVP"),
+        _ => (n - vlen, "the value of the last AVP"),
+    };
+    let tail = fnv1a32_colliding_with(&b1[start..n - 8], &b1[n - 8..], t.u64())?;
+    let mut b2 = b1.clone();
+    b2[n - 8..].copy_from_slice(&tail);
+    Some((b1, b2, what))
+}
+
 pub fn related_secret(t: &mut Tape, s: &[u8]) -> Vec<u8> {
+    related_secret_for(t, s, None)
+}
+
+/// `first_block_prefix`: the octets that precede the secret in the first MD5 input of RFC 2661 s4.3 (the attribute type), when known
+pub fn related_secret_for(t: &mut Tape, s: &[u8], first_block_prefix: Option<[u8; 2]>) -> Vec<u8> {
     let mut r = s.to_vec();
+    // about one time in eight: a secret of the same length that a weak digest cannot tell from `s`
+    if s.len() >= 8 && t.chance(12) {
+        if t.chance(90) {
+            if digest_preserving_edit(t, &mut r) {
+                return r;
+            }
+            r = s.to_vec();
+        } else {
+            // FNV-1a-32 collision, the secret hashed alone or after the attribute type (the head of the first MD5 input)
+            let prefix: Vec<u8> = match first_block_prefix {
+                Some(p) if t.chance(50) => p.to_vec(),
+                _ => Vec::new(),
+            };
+            // only the last 8 octets are free, the rest is shared
+            let keep = s.len().saturating_sub(8);
+            let mut pre = prefix.clone();
+            pre.extend_from_slice(&s[..keep]);
+            if let Some(a) = fnv1a32_colliding_with(&pre, &s[keep..], t.u64()) {
+                r.truncate(keep);
+                r.extend_from_slice(&a);
+                return r;
+            }
+        }
+    }
     match t.below(7) {
         0 => {
             let n = t.below(s.len() + 1);
